@@ -110,6 +110,8 @@ pub struct State {
     /// shared mappings: addr -> len
     pub maps: BTreeMap<usize, usize>,
     pub ctrunc_seen: u32,
+    /// descriptors that were open when the execution started (the harness's own)
+    pub protected: Vec<i32>,
     pub max_sent_packet: usize,
     pub min_recv_buf: usize,
     pub poll_timeouts: Vec<i32>,
@@ -145,10 +147,23 @@ pub fn cur_task() -> i32 {
     TASK.try_with(|t| t.get()).unwrap_or(-1)
 }
 
+/// >0 while the harness itself (not the library) is doing descriptor work
+pub static HARNESS_SECTION: AtomicU32 = AtomicU32::new(0);
+
+/// run harness-side code whose closes must not be attributed to the library
+pub fn harness<R>(f: impl FnOnce() -> R) -> R {
+    HARNESS_SECTION.fetch_add(1, Ordering::SeqCst);
+    let r = f();
+    HARNESS_SECTION.fetch_sub(1, Ordering::SeqCst);
+    r
+}
+
 pub fn activate(cfg: &Cfg) {
+    let prot: Vec<i32> = proc_fds().into_iter().map(|(f, _)| f).collect();
     with_state(|s| {
         *s = State::default();
         s.min_recv_buf = usize::MAX;
+        s.protected = prot;
     });
     SCHED.store(cfg.sched, Ordering::SeqCst);
     TRACE.store(cfg.trace, Ordering::SeqCst);
@@ -732,15 +747,21 @@ pub unsafe extern "C" fn close(fd: c_int) -> c_int {
     if visible {
         sched::step_done(Op::Close { fd }, r as i64);
     }
+    let in_harness = HARNESS_SECTION.load(Ordering::Relaxed) > 0;
     with_state(|s| {
         if s.fds.remove(&fd).is_none() {
-            // unknown to the ledger: a pre-existing descriptor, an un-interposed creation
-            // (memfd_create), a double close or a stale number
-            s.anomalies.push(LedgerEvent {
-                what: if is_err(r) { "close-ebadf".into() } else { "close-unknown".into() },
-                fd,
-                detail: format!("close({}) of a descriptor not in the ledger -> {}", fd, r),
-            });
+            // unknown to the ledger. EBADF: a double close or a stale number (numbers are never
+            // reused in no-reuse mode). A descriptor that was open before the execution started
+            // belongs to the harness: the library closed something it does not own. Anything else
+            // was created through an un-interposed call (memfd_create via inline asm, openat by
+            // std/tempfile) and is being closed by whoever opened it.
+            if in_harness {
+                // the harness's own business
+            } else if is_err(r) {
+                s.anomalies.push(LedgerEvent { what: "close-ebadf".into(), fd, detail: format!("close({}) -> {} (double or stale close)", fd, r) });
+            } else if s.protected.contains(&fd) {
+                s.anomalies.push(LedgerEvent { what: "close-foreign".into(), fd, detail: format!("close({}) of a descriptor the library never created or received", fd) });
+            }
         } else if is_err(r) {
             s.anomalies.push(LedgerEvent { what: "close-error".into(), fd, detail: format!("close({}) -> {}", fd, r) });
         }
